@@ -51,7 +51,7 @@ add("C04", "model_checking",
     "bounded step-contract harnesses (Kani/CBMC) on generated lexers with right contexts", "5 C04, 11.4")
 add("C05", "model_checking",
     "Proved: backtrack clears the done flag exactly on a rewind; next() never drops a character; (Verus, real dfa.rs) has_no_transitions counts the `$` transition and set_end_of_input_transition stores exactly the given target "
-    "(whole-view contracts of the DFA builder API). Bounded: the done flag is part of the symbolic call-start state; `$` rules in Init and other "
+    "(whole-view contracts of the DFA builder API), and DFA::add_dfa moves the `$` target of every state of a later rule set by exactly the old number of states. Bounded: the done flag is part of the symbolic call-start state; `$` rules in Init and other "
     "rule sets, `re $` preferred to `re`, Init ends the stream at a lexeme boundary, other rule sets fail, nothing after the end-of-input event.",
     B_NOTE + BOUNDED_NOTE + "Corpus policy: `$` only at the tail of a rule or context (the property's well-formedness condition).",
     "Kani contracts on lexgen_util + bounded step-contract harnesses with symbolic done flag", "5 C05, 11.4")
